@@ -25,8 +25,25 @@ BUDGET = {"quick": {"shards": 8, "examples": 25}, "thorough": {"shards": 16, "ex
 
 CMAKE = "/usr/bin/cmake"
 # values that change when CMake evaluates them a second time come first
-PREFIXES = ["Tools ", "${CMAKE_VERSION}", "tab\t", " lead", "a\\\\b", "$ENV{HOME}", "@CMAKE_VERSION@", "pfx", "my prefix", "a.b.c", "préfixe 漢", "p-1", "x y  z", "$dollar", "quo\"te", "back\\slash", "(paren)", "#hash", "N", "OFF", "0", "IGNORE", "a-NOTFOUND", "FALSE", "no", "my-repo", "api-reference"]
-GLOBS = ["\\#*", "*\\[wip\\]*", "${x}*", "*b.cmake", "sub", "**/sub/*", "a?.cmake", "pre*", "x y", "third-party-release"]
+PREFIXES = ["VERBOSE", "Tools ", "COMMAND", "RESULT_VARIABLE", "OUTPUT_QUIET", "QUIET", "${CMAKE_VERSION}", "tab\t", " lead", "a\\\\b", "$ENV{HOME}", "@CMAKE_VERSION@", "pfx", "my prefix", "a.b.c", "préfixe 漢", "p-1", "x y  z", "$dollar", "quo\"te", "back\\slash", "(paren)", "#hash", "N", "OFF", "0", "IGNORE", "a-NOTFOUND", "FALSE", "no", "my-repo", "api-reference"]
+GLOBS = ["VERBOSE", "\\#*", "*\\[wip\\]*", "${x}*", "*b.cmake", "sub", "**/sub/*", "a?.cmake", "pre*", "x y", "third-party-release"]
+
+
+# keywords of execute_process(): an extra argument spelled like one of them is taken for the keyword by CMake itself
+EP_KEYWORDS = {"COMMAND", "WORKING_DIRECTORY", "TIMEOUT", "RESULT_VARIABLE", "RESULTS_VARIABLE", "OUTPUT_VARIABLE", "ERROR_VARIABLE",
+               "INPUT_FILE", "OUTPUT_FILE", "ERROR_FILE", "OUTPUT_QUIET", "ERROR_QUIET", "COMMAND_ECHO",
+               "OUTPUT_STRIP_TRAILING_WHITESPACE", "ERROR_STRIP_TRAILING_WHITESPACE", "ENCODING", "ECHO_OUTPUT_VARIABLE",
+               "ECHO_ERROR_VARIABLE", "COMMAND_ERROR_IS_FATAL"}
+
+
+def in_known_region(case):
+    """P19: an extra argument (flag or value) that is spelled exactly like a keyword of execute_process()."""
+    return any(v in EP_KEYWORDS or f in EP_KEYWORDS for f, v in case.get("extras") or [])
+
+
+KNOWN = {"P19": {"region": in_known_region,
+                 "keys": ["wrapper-call-count", "argv:*", "output-tree-differs", "cmake-fails-but-cli-succeeds",
+                          "failure-not-propagated", "marker-missing-after-success", "configure-continues-after-failure"]}}
 
 
 def strategy(tier):
@@ -217,6 +234,8 @@ def evaluate(case):
             only = sorted(set(t_cm) ^ set(t_cli))
             diff = [k for k in t_cm if k in t_cli and t_cm[k] != t_cli[k]]
             res.fail("output-tree-differs", f"only in one: {only[:4]}; different bytes: {diff[:4]}")
+        if in_known_region(case):
+            res.labels.append("in-known-region-P19")
         res.labels += ["input:" + kind, "relative-input" if case["relative"] else "absolute-input",
                        f"extras:{len(case['extras'])}", "direct-run-failed" if direct_failed else "direct-run-ok"]
         res.labels += ["extra:" + f for f, _ in case["extras"]]
